@@ -72,7 +72,7 @@ def run(chk):
         bad = 0
         rows = 0
         for code, method in itertools.product((100, 101, 199, 200, 204, 299, 304, 404), ("GET", "HEAD", "CONNECT")):
-            env = {"EMPTY_BODY_STATUS_CODES": codes, "EMPTY_BODY_METHODS": meths, "hdrs.METH_CONNECT": "CONNECT", "code": code, "method": method}
+            env = {"EMPTY_BODY_STATUS_CODES": codes, "EMPTY_BODY_METHODS": meths, "hdrs.METH_CONNECT": "CONNECT", "code": code, "method": method, "self.method": method}  # self.method: the method of the request the response answers
             rx = bool(Evaluator(env).ev(eb[0][1]))
             tx = bool(Evaluator(env).ev(ret[0].value))
             rows += 1
@@ -183,7 +183,11 @@ def run(chk):
                     v = False
                     for l in cl:
                         if "self.chunked" in l.text:
-                            val = bool(Evaluator({"self.chunked": ch}).ev(ast.parse(l.text, mode="eval").body))
+                            try:
+                                val = bool(Evaluator({"self.chunked": ch}).ev(ast.parse(l.text, mode="eval").body))
+                            except Exception:  # a literal that mixes the flag with other atoms: not decided here
+                                v = True
+                                continue
                             v = v or (val if l.pos else not val)
                         else:
                             v = True  # other literals (header contents): not decided here
@@ -199,6 +203,28 @@ def run(chk):
             chk.ok("C02.chunkpair", ec[0], "client: header store and writer.enable_chunking() are guarded by the same predicate over chunked in {None, False, True}")
     else:
         chk.violation("C02.chunkpair", ute, "self.headers[TRANSFER_ENCODING] = 'chunked' / writer.enable_chunking()", "", "client chunking sites not found")
+    # the function that announces the framing is reached whenever the writer will chunk-frame: its call sites are guarded by a condition that
+    # `self.chunked` alone satisfies (a body-less GET with chunked=True still gets the terminator `0\\r\\n\\r\\n` from the writer)
+    cr = repo.cls(REQ, "ClientRequest")
+    sites = [c for m in cr.methods.values() for c in prog.calls_in(m.node) if norm.raw(c.func) == "self._update_transfer_encoding"]
+    if not sites:
+        chk.analysis_error("C02.chunkpair: no call of _update_transfer_encoding in ClientRequest")
+    for c in sites:
+        guard = next((i for i in prog.enclosing(c, (ast.If,)) if prog.in_body_of(c, i, "body")), None)
+        cl = norm.cnf_raw(guard.test, True) if guard is not None else []
+        narrowed = [cx for cx in cl if not any(l.text == "self.chunked" and l.pos for l in cx)]
+        if not narrowed:
+            chk.ok("C02.chunkpair", c, f"{c.fn.name}(): the Transfer-Encoding decision is taken whenever chunked is set")
+        else:
+            chk.violation("C02.chunkpair", c, K.short(c), "a guard that self.chunked satisfies on its own",
+                          f"{c.fn.name}(): _update_transfer_encoding() is skipped for a body-less GET/HEAD/OPTIONS even with chunked=True, while _create_writer() enables chunk framing whenever chunked is set: `0\\r\\n\\r\\n` goes out after the header block without a Transfer-Encoding header and the server reads it as a malformed next request",
+                          path_condition=norm.fmt_cnf(cl))
+    # a caller-supplied `Transfer-Encoding: chunked` header switches the writer to chunk framing too
+    te = [a for a in ast.walk(ute.node) if isinstance(a, ast.Assign) and norm.raw(a) == "self.chunked = True"]
+    if te and any("chunked" in norm.fmt_cnf(PC.pc(a)) for a in te):
+        chk.ok("C02.chunkpair", te[0], "a caller-supplied `Transfer-Encoding: chunked` header turns chunk framing on (and Content-Length off)")
+    else:
+        chk.violation("C02.chunkpair", ute, "if 'chunked' in te: ...", "self.chunked = True", "a caller-supplied `Transfer-Encoding: chunked` header is sent together with an aiohttp-added Content-Length and an un-chunked body")
     # ---- clbody ----------------------------------------------------------------------------------------------------------------
     cb = [s for f in repo.module(WRESP).functions.values() for s in ast.walk(f.node) if isinstance(s, ast.Assign) and norm.raw(s.targets[0]) == "self._compressed_body" and not (isinstance(s.value, ast.Constant))]
     for s in cb:
